@@ -230,6 +230,81 @@ example :
      | .ok cs => decide (cs = [(0, 0, ⟨0x2580, directColor 4 4 4, directColor 8 8 8⟩)])
      | .error _ => false) = true := by decide +kernel
 
+/-! ## Every image: the alpha tested by the renderer is the source pixel's, through the whole pipeline -/
+
+/-- The alpha bytes of the stored image are bytes. -/
+def AlphaBytes (src : Img8) : Prop := ∀ x y, x < src.w → y < src.h → (src.pix x y).a < 256
+
+/-- The 8-bit alpha `toRGB` returns for pixel `(x, y)` of the image `resizeImage` returns is exactly the alpha byte
+    of the source pixel `(nnIndex x, nnIndex y)` — both source types, scaled or not, every alpha level. -/
+theorem resized_alpha (F : FloatOps) (src img : Img8) (w h cellW cellH : Nat)
+    (hr : resizeImg F src w h cellW cellH = .ok img) (hb : AlphaBytes src) (hw : 0 < src.w) (hh : 0 < src.h)
+    (x y : Nat) (hx : x < img.w) (hy : y < img.h) :
+    (toRGB (img.view.at x y)).a = (src.pix (nnIndex x src.w img.w) (nnIndex y src.h img.h)).a := by
+  have h1 := nnIndex_lt x src.w img.w hx hw
+  have h2 := nnIndex_lt y src.h img.h hy hh
+  have ha := hb _ _ h1 h2
+  rcases (resizeImg_cases genCfg F src w h cellW cellH img hr).2 with he | he
+  · have e1 : nnIndex x src.w img.w = x := by rw [he, nnIndex_same x src.w hw]
+    have e2 : nnIndex y src.h img.h = y := by rw [he, nnIndex_same y src.h hh]
+    rw [e1, e2] at ha ⊢
+    rw [he, view_at src x y (by rw [← he]; exact hx) (by rw [← he]; exact hy)]
+    exact toRGB_alpha _ _ (conv_alpha _ _) ha
+  · have hsa := scaledPx_alpha (!src.opaque) src img.w img.h x y ha
+    have hpix : img.pix x y = scaledPx (!src.opaque) src img.w img.h x y := by
+      have hp := scale_pix (!src.opaque) src img.w img.h x y hx hy
+      rw [← he] at hp
+      exact hp
+    rw [view_at img x y hx hy, hpix, ← hsa]
+    rw [← hsa] at ha
+    exact toRGB_alpha _ _ (conv_alpha _ _) ha
+
+/-- **Transparency through the whole pipeline, every image** (`HalfBlockImage.Resize` on any stored `*image.NRGBA` /
+    `*image.RGBA`, any float step, scaled or not): the cell at column `x`, row `y` is decided by the alpha bytes `ta`,
+    `ba` of the two source pixels `(nnIndex x, nnIndex (2y))`, `(nnIndex x, nnIndex (2y+1))` (`ba = 0` in a last odd row)
+    against the threshold 50, exactly as the property says: both below ⇒ the default cell (space, default colours);
+    only the top below ⇒ `▄` coloured by the bottom pixel on the default background; only the bottom below ⇒ `▀`
+    coloured by the top pixel on the default background; neither ⇒ `▀` with both colours (`T`, `B` = what `toRGB`
+    returns for the two pixels; for opaque pixels exactly their colours: `half_pipeline_opaque`; for translucent ones
+    within `translucent_scaled`). -/
+theorem half_pipeline_transparency (F : FloatOps) (src : Img8) (w h : Nat) (hw : 0 < src.w) (hh : 0 < src.h)
+    (hb : AlphaBytes src) (cs : List (Nat × Nat × BCell)) (hr : halfResize F src w h = .ok cs) :
+    ∃ pw ph, resizeDims F src.w src.h w h halfBlockGeom.1 halfBlockGeom.2 = .ok (pw, ph) ∧
+      ∀ e ∈ cs, e.1 < pw ∧ e.2.1 < ceilDiv ph 2 ∧
+        ∃ T B : C8,
+          T.a = (src.pix (nnIndex e.1 src.w pw) (nnIndex (2 * e.2.1) src.h ph)).a ∧
+          B.a = (if 2 * e.2.1 + 1 < ph then (src.pix (nnIndex e.1 src.w pw) (nnIndex (2 * e.2.1 + 1) src.h ph)).a else 0) ∧
+          e.2.2 = (if T.a < 50 ∧ B.a < 50 then ⟨0x20, 0, 0⟩
+                   else if T.a < 50 then ⟨0x2584, rgbColor B.r B.g B.b, 0⟩
+                   else if B.a < 50 then ⟨0x2580, rgbColor T.r T.g T.b, 0⟩
+                   else ⟨0x2580, rgbColor T.r T.g T.b, rgbColor B.r B.g B.b⟩) := by
+  unfold halfResize at hr
+  cases hi : resizeImg F src w h halfBlockGeom.1 halfBlockGeom.2 with
+  | error e => rw [hi] at hr; cases hr
+  | ok img =>
+    rw [hi] at hr
+    simp only [bind, Except.bind, pure, Except.pure] at hr
+    cases hr
+    refine ⟨img.w, img.h, (resizeImg_cases genCfg F src w h _ _ img hi).1, ?_⟩
+    intro e he
+    obtain ⟨h1, h2, h3, _⟩ := blockCells_mem halfCell img.view e he
+    rw [view_w] at h1
+    rw [view_h] at h2
+    obtain ⟨hrow, _⟩ := blockHeight_rows img.h e.2.1 h2
+    rw [blockHeight_eq] at h2
+    refine ⟨h1, h2, toRGB (img.view.at e.1 (2 * e.2.1)), toRGB (img.view.at e.1 (2 * e.2.1 + 1)), ?_, ?_, ?_⟩
+    · exact resized_alpha F src img w h _ _ hi hb hw hh e.1 (2 * e.2.1) h1 hrow
+    · by_cases hbot : 2 * e.2.1 + 1 < img.h
+      · rw [if_pos hbot]
+        exact resized_alpha F src img w h _ _ hi hb hw hh e.1 (2 * e.2.1 + 1) h1 hbot
+      · rw [if_neg hbot]
+        have hz : img.view.at e.1 (2 * e.2.1 + 1) = ⟨0, 0, 0, 0⟩ := by
+          have : ¬ (2 * e.2.1 + 1 < img.view.h) := hbot
+          simp [Img.at, this]
+        rw [hz]; decide
+    · rw [h3, halfCell]
+      exact C20.transparent_default _ _
+
 /-! ## The `Copy` shortcut of `Scale` is unreachable from `resizeImage` -/
 
 /-- `Scale` delegates to `Copy` when source and destination have the same size (not modelled).  `resizeImage` scales
